@@ -221,6 +221,13 @@ impl From<DynamicTable> for Encoder {
     }
 }
 
+#[cfg(all(h3_verif, not(test)))]
+impl From<DynamicTable> for Encoder {
+    fn from(table: DynamicTable) -> Encoder {
+        Encoder { table }
+    }
+}
+
 // Action to apply to the encoder table, given an instruction received from the decoder.
 #[derive(Debug, PartialEq)]
 enum Action {
